@@ -1,5 +1,6 @@
 (** C12: a parser can be reused: Reset with a new Buffer behaves like a fresh parser. *)
-From PegV Require Import Base.Tac Spec.Syntax Spec.Peg Model.Machine Model.Gen Proofs.PegFacts Proofs.Forest Proofs.Top Properties.Example.
+From PegV Require Import Base.Tac Spec.Syntax Spec.Peg Model.Machine Model.Gen Model.Analyses Model.Emit Model.SEmit Model.Exec
+  Proofs.PegFacts Proofs.Forest Proofs.Top Proofs.SEmitFile Properties.Example.
 
 (** Whatever state [st0] the parser object was left in by earlier inputs (token slice, memo table,
     maxToken, position) and a fresh object [st0'] give, after Reset, the same verdict, position,
@@ -15,6 +16,25 @@ Theorem C12_reuse_is_fresh :
       (b = false -> maxtok st1 = maxtok st2).
 Proof. exact c12_history_irrelevant. Qed.
 Print Assumptions C12_reuse_is_fresh.
+
+(** The same for the statements of the generated file (Model/SEmit.v under the goto semantics of Model/Exec.v, see
+    C01): whatever the entry's function returns after Reset in an object that has parsed before equals what it
+    returns in a fresh one. *)
+Theorem C12_generated_code_reuse_is_fresh :
+  forall g ptx buf penv, good_grammar g -> good_buf buf -> good_switches g ->
+  forall memo inline n r st0 st0' rr,
+    deep_table_b g inline = true -> slot_ok g inline r -> reached (count_rules g) r = true ->
+    peg_parse g ptx buf penv (S n) r = Some rr ->
+    forall res1 res2,
+      xcall buf penv (mk_opts true memo inline g) (gen_fn g ptx inline) r (reset st0) res1 ->
+      xcall buf penv (mk_opts true memo inline g) (gen_fn g ptx inline) r (reset st0') res2 ->
+      exists b s1 s2, res1 = Ret b s1 /\ res2 = Ret b s2 /\
+        (b = true -> pos s1 = pos s2 /\ live s1 = live s2) /\ (b = false -> maxtok s1 = maxtok s2).
+Proof.
+  intros g ptx buf penv Hg Hb Hs memo inline n r st0 st0' rr Hd Hsl Hr H res1 res2 X1 X2.
+  exact (generated_code_options_invisible g ptx buf penv Hg Hb Hs memo inline memo inline n r st0 st0' rr Hd Hsl Hd Hsl Hr H res1 res2 X1 X2).
+Qed.
+Print Assumptions C12_generated_code_reuse_is_fresh.
 
 (** Integer width.  The generic parameter U types buffer offsets only (position, token begin/end;
     since fix a74140a the token *index* is a uint32 of its own).  Every offset the parser reports is
